@@ -59,11 +59,22 @@ def rand_dep(rng, ids, nested_dep=False):
                 d["stylesheet"][0]["media"] = "print"
     if rng.random() < 0.4:
         d["meta"] = {"name": "m%s" % n, "content": "v"}
+    shared = rng.random() < 0.2  # several dependencies may legitimately carry identical pieces; each still emits its own
+    if shared:
+        d["meta"] = [{"name": "viewport", "content": "width=device-width"}]
+        if "source" not in d or "href" in d.get("source", {}):
+            d["source"] = {"href": "https://cdn.example/shared"}
+            d["script"] = [{"src": "shared.js"}]
     h = rng.random()
     if h < 0.25:
         d["head"] = [gen.TAG("title", {"k": "text", "s": "T%s" % n})]
     elif h < 0.4:
         d["head"] = "<meta name=\"raw%s\">" % n
+    if shared and rng.random() < 0.5:
+        d["head"] = [gen.TAG("title", {"k": "text", "s": "SharedTitle"})]
+    if shared:
+        d["_mark"] = n + "S"   # (needles of shared pieces are not unique: structural needle rules skip this dependency)
+        d["_shared"] = True
     if nested_dep:
         inner = rand_dep(rng, ids)
         inner["name"] = "inner"
@@ -74,7 +85,7 @@ def rand_dep(rng, ids, nested_dep=False):
 def strip_marks(r):
     """Remove the private _mark keys before building (HTMLDependency does not take them)."""
     if isinstance(r, dict):
-        return {k: strip_marks(v) for k, v in r.items() if k != "_mark"}
+        return {k: strip_marks(v) for k, v in r.items() if k not in ("_mark", "_shared")}
     if isinstance(r, list):
         return [strip_marks(x) for x in r]
     return r
@@ -96,7 +107,7 @@ def rand_body_node(rng, ids, depth, dep_p=0.25):
 def rand_case(rng, nested=False):
     ids = lg.Ids()
     shape = rng.choice(["fragment", "fragment", "list", "body", "html_full", "html_nohead", "html_head_late", "html_nobody", "html_deps_under", "two_roots",
-                        "body_plus_meta_siblings", "html_plus_meta_siblings"])
+                        "body_plus_meta_siblings", "html_plus_meta_siblings", "head_and_body"])
     kids = [rand_body_node(rng, ids, rng.choice([0, 1, 2, 3])) for _ in range(rng.randint(0, 4))]
     if nested:
         kids.insert(rng.randint(0, len(kids)), rand_dep(rng, ids, nested_dep=True))
@@ -123,6 +134,11 @@ def rand_case(rng, nested=False):
         content = [gen.TAG("html", gen.TAG("head", *user_head, via_fn=False), *kids, via_fn=False, attrs=hattrs)]
     elif shape == "html_deps_under":
         content = [gen.TAG("html", rand_dep(rng, ids), gen.TAG("head", *user_head, via_fn=False), rand_dep(rng, ids), gen.TAG("body", *kids, via_fn=False), via_fn=False)]
+    elif shape == "head_and_body":
+        # a <head> next to a <body> is ordinary content (only a LONE <html> or <body> is taken as the document's own)
+        content = [gen.TAG("head", *user_head, via_fn=False), gen.TAG("body", *kids, via_fn=False)]
+        if rng.random() < 0.4:
+            content = content[::-1]
     elif shape == "body_plus_meta_siblings":
         sib = [rand_dep(rng, ids) if rng.random() < 0.7 else {"k": "headc", "c": [gen.TAG("title", {"k": "text", "s": "hc%d" % rng.randint(1, 3)})]}
                for _ in range(rng.randint(1, 3))]
@@ -137,6 +153,11 @@ def rand_case(rng, nested=False):
     kw = rng.choice([[], [["lang", {"t": "str", "s": "en"}]], [["lang", {"t": "str", "s": "en"}], ["data_x", {"t": "true"}]],
                      [["class_", {"t": "str", "s": "doc"}], ["gone", {"t": "none"}]]])
     n_late = rng.choice([0, 0, 1, 2, 3]) if shape in ("fragment", "list") else 0
+    if shape == "head_and_body" and rng.random() < 0.5:
+        late_pair = content[1:]
+        content = content[:1]
+    else:
+        late_pair = []
     if shape == "body_plus_meta_siblings" and rng.random() < 0.5:
         # the siblings arrive later through append()
         body_i = next(i for i, c in enumerate(content) if c["k"] == "tag")
@@ -144,7 +165,7 @@ def rand_case(rng, nested=False):
         content = content[: body_i + 1]
     else:
         late_sibs = []
-    return {"shape": shape, "content": content, "late": late_sibs + [rand_body_node(rng, ids, 1) for _ in range(n_late)], "kw": kw,
+    return {"shape": shape, "content": content, "json_mode": rng.random() < 0.1, "late": late_pair + late_sibs + [rand_body_node(rng, ids, 1) for _ in range(n_late)], "kw": kw,
             "lib_prefix": rng.choice(["lib", "lib", None, "", "a/b"]), "include_version": rng.random() < 0.7, "late_together": rng.random() < 0.5}
 
 
@@ -171,7 +192,19 @@ def check_case(ctx, case):
     else:
         for c in late:
             doc.append(gen.build(c))
-    out = doc.render(lib_prefix=case["lib_prefix"], include_version=case["include_version"])
+    if case.get("json_mode"):
+        # the global dependency render mode concerns str() of tags; a document hoists its dependencies either way
+        import htmltools as _h
+
+        old_mode = _h.html_dependency_render_mode
+        _h.html_dependency_render_mode = "json"
+        try:
+            out = doc.render(lib_prefix=case["lib_prefix"], include_version=case["include_version"])
+        finally:
+            _h.html_dependency_render_mode = old_mode
+        ctx.count("json_mode_documents")
+    else:
+        out = doc.render(lib_prefix=case["lib_prefix"], include_version=case["include_version"])
     ctx.count("oracle.assembly")
     nested = has_nested_dep(case)
 
@@ -267,6 +300,8 @@ def _find_mark(case, d):
 def _needles(dep):
     n = dep["_mark"]
     out = []
+    if dep.get("_shared"):
+        return out
     sc = dep.get("script")
     if sc:
         out.append("s%s_0.js\"" % n)
